@@ -88,6 +88,18 @@ Patterns == {t \in UNION {[1..n -> Slots] : n \in 2..4} : \E i \in DOMAIN t : t[
 \* the bundle's "sources" has sum of Nsrc entries (1 for a plain file)
 NumSources(t, ds) == LET RECURSIVE Sum(_) Sum(i) == IF i = 0 THEN 0 ELSE Sum(i - 1) + (IF t[i] = "I" THEN Nsrc(ds[i]) ELSE 1) IN Sum(Len(t))
 
+(***************************************************************************)
+(* CSS and TypeScript/JSX families (basic)                                 *)
+(***************************************************************************)
+\* a CSS bundle: entry a.css imports b.css and c.css; dup: b.css is imported twice
+\* under different conditions (one file, two results, ONE slot in "sources":
+\* SourceMap.tla WithRepeat); inmap: which dependency carries a hand-built
+\* two-source input map (first: files after it are shifted by 2 in "sources")
+CssConfigs == [minify : {"none", "all"}, content : BOOLEAN, dup : BOOLEAN, inmap : {"none", "first", "middle"}]
+CssNumSources(c) == 3 + (IF c.inmap = "none" THEN 0 ELSE 1)
+\* TypeScript: type-erased code keeps the columns of what remains
+TsConfigs == [mode : {"transform", "bundle"}, minify : {"none", "ws", "all"}, content : BOOLEAN, jsx : BOOLEAN]
+
 VARIABLE x
 Init == x = 0
 Next == x' = x
@@ -103,6 +115,8 @@ Export ==
         PrintT(<<"CASE", ToJson([kind |-> "layout", files |-> SeqOf(t)])>>)
   /\ \A d \in InMaps : SensibleIn(d) =>
         PrintT(<<"CASE", ToJson(d @@ [kind |-> "inmap", nsrc |-> Nsrc(d), tokenExact |-> TokenExact(d)])>>)
+  /\ \A c \in CssConfigs : PrintT(<<"CASE", ToJson(c @@ [kind |-> "css", nsources |-> CssNumSources(c)])>>)
+  /\ \A c \in TsConfigs : PrintT(<<"CASE", ToJson(c @@ [kind |-> "ts"])>>)
   /\ \A t \in Patterns :
         PrintT(<<"CASE", ToJson([kind |-> "pattern", files |-> SeqOf(t)])>>)
 
